@@ -82,6 +82,10 @@ func TypeOf(x interface{}) (string, error) {
 		return "null", nil
 	}
 
+	if x == nil {
+		return "null", nil
+	}
+
 	xType := reflect.TypeOf(x).String()
 	return "", fmt.Errorf("unknown type %s", xType)
 }
